@@ -133,7 +133,13 @@ func structOf(t types.Type) *types.Struct {
 func asFieldAddr(v ssa.Value) (fieldRef, bool) {
 	fa, ok := v.(*ssa.FieldAddr)
 	if !ok {
-		return fieldRef{}, false
+		// a field address handed to a private helper as a pointer argument
+		if o := origin(v); o != v {
+			fa, ok = o.(*ssa.FieldAddr)
+		}
+		if !ok {
+			return fieldRef{}, false
+		}
 	}
 	st := structOf(fa.X.Type())
 	if st == nil {
@@ -144,6 +150,7 @@ func asFieldAddr(v ssa.Value) (fieldRef, bool) {
 
 // asFieldLoad: v is the value base.f (load through FieldAddr, or Field of a struct value)
 func asFieldLoad(v ssa.Value) (fieldRef, bool) {
+	v = origin(v)
 	switch x := v.(type) {
 	case *ssa.UnOp:
 		if x.Op == token.MUL {
@@ -456,10 +463,13 @@ func returnedValues(f *ssa.Function, i int) []ssa.Value {
 		}
 		for _, in := range b.Instrs {
 			if ret, ok := in.(*ssa.Return); ok && i < len(ret.Results) {
-				for _, v := range unspill(ret.Results[i]) {
-					if !seen[v] {
-						seen[v] = true
-						out = append(out, v)
+				for _, sv := range unspill(ret.Results[i]) {
+					// every value that can be returned: the leaves of phis (a single-exit function merges them)
+					for _, v := range phiLeaves(sv) {
+						if !seen[v] {
+							seen[v] = true
+							out = append(out, v)
+						}
 					}
 				}
 			}
